@@ -244,6 +244,114 @@ ApplyCmpLit(c, h, swap) ==    \* a sense lit ; swap: lit sense a  (Python reflec
         ELSE Raised("must")
     ELSE May(Raised("type"))
 
+(* ---------------------------------------------------------------- matrices *)
+\* slice operands of matrix indexing come from a table (the call record carries table indices)
+SliceTab == << <<NoneI, NoneI, NoneI>>, <<0, 2, NoneI>>, <<1, NoneI, NoneI>>, <<NoneI, NoneI, -1>>,
+               <<NoneI, -1, NoneI>>, <<0, NoneI, 2>>, <<2, 5, NoneI>>, <<1, 1, NoneI>> >>
+SliceOf(id) == SliceTab[id]
+\* A[i, j] (k=0) | A[i, sl_j] (k=1) | A[sl_i, j] (k=2) | A[sl_i, sl_j] (k=3)
+ApplyMGet(c, h) ==
+    LET o == h[c.a] IN
+    IF o.kind # "M" THEN May(Raised("type")) ELSE
+    LET nr == MRows(o)  nc == MCols(o) IN
+    IF c.k = 0 THEN
+        LET i == PyIndex(nr, c.i)  j == PyIndex(nc, c.j) IN
+        IF i = -1 \/ j = -1 THEN Raised("must") ELSE SObj(Var(o.names[i + 1][j + 1]))
+    ELSE IF c.k = 1 THEN
+        LET i == PyIndex(nr, c.i)  sl == SliceOf(c.j) IN
+        IF i = -1 THEN Raised("must")
+        ELSE LET ns == PySlice(o.names[i + 1], sl[1], sl[2], sl[3]) IN
+             IF Len(ns) = 0 THEN Raised("must") ELSE VObj(ns, <<"row", i>>)
+    ELSE IF c.k = 2 THEN
+        LET j == PyIndex(nc, c.j)  sl == SliceOf(c.i) IN
+        IF j = -1 THEN Raised("must")
+        ELSE LET rows == PySlice(o.names, sl[1], sl[2], sl[3]) IN
+             IF Len(rows) = 0 THEN Raised("must") ELSE VObj([r \in 1..Len(rows) |-> rows[r][j + 1]], <<"col", j>>)
+    ELSE
+        LET s1 == SliceOf(c.i)  s2 == SliceOf(c.j)
+            rows == PySlice(o.names, s1[1], s1[2], s1[3]) IN
+        IF Len(rows) = 0 THEN Raised("must")
+        ELSE LET sub == [r \in 1..Len(rows) |-> PySlice(rows[r], s2[1], s2[2], s2[3])] IN
+             IF Len(sub[1]) = 0 THEN Raised("must") ELSE MObj(sub, FALSE)
+ApplyTranspose(c, h) ==
+    LET o == h[c.a] IN
+    IF o.kind = "M" THEN MObj([j \in 1..MCols(o) |-> [i \in 1..MRows(o) |-> o.names[i][j]]], o.sym)
+    ELSE IF o.kind = "ME" THEN MEObj([j \in 1..MCols(o) |-> [i \in 1..MRows(o) |-> o.dens[i][j]]])
+    ELSE Raised("must")            \* vectors have no transpose: documented error
+ApplyDiagonal(c, h) ==        \* A.diagonal() (k = 0) | diag(A) (k = 1)
+    LET o == h[c.a] IN
+    IF o.kind # "M" THEN (IF o.kind = "V" /\ c.k = 1 THEN Raised("must") ELSE May(Raised("type")))
+    ELSE IF MRows(o) # MCols(o) THEN Raised("must")
+    ELSE VObj([i \in 1..MRows(o) |-> o.names[i][i]], <<"diag">>)
+ApplyTrace(c, h) ==           \* A.trace() (k = 0) | trace(A) (k = 1)
+    LET o == h[c.a] IN
+    IF o.kind # "M" THEN May(Raised("type"))
+    ELSE IF MRows(o) # MCols(o) THEN Raised("must")
+    ELSE SObj(SumTerms([i \in 1..MRows(o) |-> Var(o.names[i][i])]))
+ApplyFrobenius(c, h) ==
+    LET o == h[c.a] IN
+    IF o.kind # "M" THEN May(Raised("type"))
+    ELSE LET es == Flat(MElems(o)) IN SObj(Un("sqrt", SumTerms([i \in 1..Len(es) |-> Mul(es[i], es[i])])))
+ApplyMBin(c, h) ==            \* matrix op matrix
+    LET a == h[c.a]  b == h[c.b] IN
+    IF ~IsMatLike(a) \/ ~IsMatLike(b) THEN May(Raised("type"))
+    ELSE IF MRows(a) # MRows(b) \/ MCols(a) # MCols(b) THEN Raised("must")
+    ELSE LET ea == MElems(a)  eb == MElems(b) IN
+         MEObj([i \in 1..MRows(a) |-> [j \in 1..MCols(a) |-> Bin(c.op, ea[i][j], eb[i][j])]])
+ApplyMBinLit(c, h, swap) ==   \* matrix op literal | literal op matrix
+    LET a == h[c.a]  l == c.lit IN
+    IF ~IsMatLike(a) THEN May(Raised("type"))
+    ELSE LET ea == MElems(a)  nr == MRows(a)  nc == MCols(a) IN
+    IF IsScalarLit(l) THEN
+        LET r == MEObj([i \in 1..nr |-> [j \in 1..nc |-> MkBin(c.op, ea[i][j], Const(l.qs[1]), swap)]]) IN
+        IF PyNumber(l) /\ ~(swap /\ c.op = "**") THEN r ELSE May(r)
+    ELSE IF Is2D(l) THEN
+        IF l.sh[1] # nr \/ l.sh[2] # nc THEN Raised("must")
+        ELSE LET r == MEObj([i \in 1..nr |-> [j \in 1..nc |-> MkBin(c.op, ea[i][j], LitRow(l, i)[j], swap)]]) IN
+             IF swap /\ (l.lk = "list" \/ c.op = "**") THEN May(r) ELSE r
+    ELSE IF Is1D(l) THEN          \* NumPy would broadcast a row vector; rejecting is acceptable
+        IF l.sh[1] # nc THEN Raised("must")
+        ELSE May(MEObj([i \in 1..nr |-> [j \in 1..nc |-> MkBin(c.op, ea[i][j], Const(l.qs[j]), swap)]]))
+    ELSE Raised("must")
+ApplyMNeg(c, h) ==
+    LET a == h[c.a] IN
+    IF ~IsMatLike(a) THEN May(Raised("type"))
+    ELSE LET ea == MElems(a) IN MEObj([i \in 1..MRows(a) |-> [j \in 1..MCols(a) |-> Neg(ea[i][j])]])
+ApplyMatVec(c, h) ==          \* A @ x
+    LET a == h[c.a]  b == h[c.b] IN
+    IF a.kind # "M" THEN May(Raised("type"))
+    ELSE IF ~IsVecLike(b) THEN May(Raised("type"))        \* matrix @ matrix: documented as unsupported
+    ELSE IF MCols(a) # VSize(b) THEN Raised("must")
+    ELSE LET eb == Elems(b) IN
+         EObj([i \in 1..MRows(a) |-> SumTerms([j \in 1..MCols(a) |-> Mul(Var(a.names[i][j]), eb[j])])])
+ApplyQuadForm(c, h) ==        \* quadratic_form(x, Q)
+    LET a == h[c.a]  l == c.lit IN
+    IF ~IsVecLike(a) THEN May(Raised("type"))
+    ELSE IF ~Is2D(l) \/ l.sh[1] # l.sh[2] \/ l.sh[1] # VSize(a) THEN Raised("must")
+    ELSE LET ea == Elems(a)  n == Len(ea) IN
+         SObj(SumTerms([ij \in 1..(n * n) |->
+                LET i == ((ij - 1) \div n) + 1  j == ((ij - 1) % n) + 1 IN Mul(Mul(ea[i], LitRow(l, i)[j]), ea[j])]))
+ApplyMCmp(c, h) ==
+    LET a == h[c.a]  b == h[c.b] IN
+    IF ~IsMatLike(a) \/ ~IsMatLike(b) THEN May(Raised("type"))
+    ELSE IF MRows(a) # MRows(b) \/ MCols(a) # MCols(b) THEN Raised("must")
+    ELSE LET ea == Flat(MElems(a))  eb == Flat(MElems(b)) IN
+         CLObj([i \in 1..Len(ea) |-> [den |-> ConDen(ea[i], eb[i]), sense |-> c.op]])
+ApplyMCmpLit(c, h, swap) ==
+    LET a == h[c.a]  l == c.lit IN
+    IF ~IsMatLike(a) THEN May(Raised("type"))
+    ELSE LET ea == Flat(MElems(a))  nr == MRows(a)  nc == MCols(a)
+             mk(i, t) == [den |-> IF swap THEN ConDen(t, ea[i]) ELSE ConDen(ea[i], t), sense |-> c.op] IN
+    IF IsScalarLit(l) THEN
+        (LET r == CLObj([i \in 1..Len(ea) |-> mk(i, Const(l.qs[1]))]) IN IF PyNumber(l) THEN r ELSE May(r))
+    ELSE IF Is2D(l) THEN
+        IF l.sh[1] # nr \/ l.sh[2] # nc THEN Raised("must")
+        ELSE (LET r == CLObj([i \in 1..Len(ea) |-> mk(i, Const(l.qs[i]))]) IN IF l.lk = "list" THEN May(r) ELSE r)
+    ELSE IF Is1D(l) THEN
+        IF l.sh[1] # nc THEN Raised("must")
+        ELSE May(CLObj([i \in 1..Len(ea) |-> mk(i, Const(l.qs[((i - 1) % nc) + 1]))]))
+    ELSE Raised("must")
+
 (* ---------------------------------------------------------------- dispatch *)
 ApplyCore(c, h) ==
   CASE c.c = "MkVar"     -> ApplyMkVar(c)
@@ -271,6 +379,20 @@ ApplyCore(c, h) ==
     [] c.c = "Cmp"       -> ApplyCmp(c, h)
     [] c.c = "CmpLit"    -> ApplyCmpLit(c, h, FALSE)
     [] c.c = "RCmpLit"   -> ApplyCmpLit(c, h, TRUE)
+    [] c.c = "MGet"      -> ApplyMGet(c, h)
+    [] c.c = "Transpose" -> ApplyTranspose(c, h)
+    [] c.c = "Diagonal"  -> ApplyDiagonal(c, h)
+    [] c.c = "Trace"     -> ApplyTrace(c, h)
+    [] c.c = "Frobenius" -> ApplyFrobenius(c, h)
+    [] c.c = "MBin"      -> ApplyMBin(c, h)
+    [] c.c = "MBinLit"   -> ApplyMBinLit(c, h, FALSE)
+    [] c.c = "MRBinLit"  -> ApplyMBinLit(c, h, TRUE)
+    [] c.c = "MNeg"      -> ApplyMNeg(c, h)
+    [] c.c = "MatVec"    -> ApplyMatVec(c, h)
+    [] c.c = "QuadForm"  -> ApplyQuadForm(c, h)
+    [] c.c = "MCmp"      -> ApplyMCmp(c, h)
+    [] c.c = "MCmpLit"   -> ApplyMCmpLit(c, h, FALSE)
+    [] c.c = "MRCmpLit"  -> ApplyMCmpLit(c, h, TRUE)
 
 (* an operand that is itself a raised call cannot be used *)
 UsesRaised(c, h) == (c.a # 0 /\ h[c.a].kind = "X") \/ (c.b # 0 /\ h[c.b].kind = "X")
